@@ -214,20 +214,20 @@ Proof.
   rewrite IH, <- app_assoc, app_length, Nat2N.inj_add, N.add_assoc. reflexivity.
 Qed.
 
-Lemma render_snoc segs s : render 0 (segs ++ [s]) = render 0 segs ++ segment_cw (N.of_nat (length (render 0 segs))) s.
-Proof. rewrite render_app. cbn [render]. cbv zeta. rewrite app_nil_r, N.add_0_l. reflexivity. Qed.
+Lemma render_snoc b segs s : render b (segs ++ [s]) = render b segs ++ segment_cw (b + N.of_nat (length (render b segs))) s.
+Proof. rewrite render_app. cbn [render]. cbv zeta. rewrite app_nil_r. reflexivity. Qed.
 
 Lemma meaning_snoc segs s : meaning (segs ++ [s]) = meaning segs ++ segment_data s.
 Proof. unfold meaning. rewrite flat_map_app. cbn [flat_map]. rewrite app_nil_r. reflexivity. Qed.
 
-Definition G (data : list N) (e : enc) (segs : list segment) : Prop :=
-  e_cw e = render 0 segs /\ meaning segs ++ e_data e = data /\ Forall seg_ab segs /\ ab_plan (e_planned e) /\
+Definition G (pre data : list N) (e : enc) (segs : list segment) : Prop :=
+  e_cw e = pre ++ render (N.of_nat (length pre)) segs /\ meaning segs ++ e_data e = data /\ Forall seg_ab segs /\ ab_plan (e_planned e) /\
   ((e_encodation e = Ascii /\ e_new_mode e = None) \/ (e_encodation e = Base256 /\ e_new_mode e = Some 231 /\ e_data e <> [])).
 
 (* what the loop ends with: ASCII runs and explicit Base256 fields, or the same followed by one field to the end of
    the symbol, which then is full *)
-Definition finished (data : list N) (e : enc) (segs : list segment) : Prop :=
-  e_cw e = render 0 segs /\ meaning segs = data /\ e_data e = [] /\ e_encodation e = Ascii /\
+Definition finished (pre data : list N) (e : enc) (segs : list segment) : Prop :=
+  e_cw e = pre ++ render (N.of_nat (length pre)) segs /\ meaning segs = data /\ e_data e = [] /\ e_encodation e = Ascii /\
   (Forall seg_ab segs \/
    exists init run s, segs = init ++ [SB256End run] /\ Forall seg_ab init /\
      symbol_for e 0 = Some s /\ cw_len e = num_data_codewords s).
@@ -237,8 +237,8 @@ Proof. unfold has_more. intros ->. reflexivity. Qed.
 Lemma has_more_cons e : e_data e <> [] -> has_more e = true.
 Proof. unfold has_more. destruct (e_data e); [congruence|reflexivity]. Qed.
 
-Lemma main_loop_ab data : bytes_ok data = true -> forall fuel e nwr segs e', G data e segs ->
-  main_loop fuel e nwr = Ok e' -> exists segs', finished data e' segs' /\ e_symbols e' = e_symbols e.
+Lemma main_loop_ab pre data : bytes_ok data = true -> forall fuel e nwr segs e', G pre data e segs ->
+  main_loop fuel e nwr = Ok e' -> exists segs', finished pre data e' segs' /\ e_symbols e' = e_symbols e.
 Proof.
   intros OKD. induction fuel as [|f IH]; intros e nwr segs e' (GC & GM & GS & GP & GE) H; cbn [main_loop] in H; [discriminate|].
   destruct (has_more e) eqn:HM0; cbn [negb] in H.
@@ -251,8 +251,8 @@ Proof.
   assert (bytes_ok (e_data e) = true) as OKE.
   { rewrite <- GM in OKD. apply bytes_ok_app in OKD. apply OKD. }
     (* the recursive call, whatever the no-progress counter *)
-    assert (forall e1 segs1, G data e1 segs1 -> e_symbols e1 = e_symbols e -> (exists n1, main_loop f e1 n1 = Ok e') ->
-              exists segs', finished data e' segs' /\ e_symbols e' = e_symbols e) as REC.
+    assert (forall e1 segs1, G pre data e1 segs1 -> e_symbols e1 = e_symbols e -> (exists n1, main_loop f e1 n1 = Ok e') ->
+              exists segs', finished pre data e' segs' /\ e_symbols e' = e_symbols e) as REC.
     { intros e1 segs1 G1 ES1 (n1 & M1). destruct (IH e1 n1 segs1 e' G1 M1) as (segs' & F & ES). exists segs'. split; [exact F|congruence]. }
     assert (forall (e1 : enc) (len : nat) (X : ER enc), X = Ok e' ->
               (X = (if (length (e_cw e1) <? len)%nat then Panic POverflow else
@@ -266,7 +266,7 @@ Proof.
       destruct (ascii_encode (S (S (length (e_data e)))) e) as [e1| |] eqn:AE; cbn [bind] in H; try discriminate.
       destruct (ascii_run _ e e1 EA OKE GP AE) as (items & I1 & I2 & I3 & (_ & _ & I4) & I5 & I6).
       apply (REC e1 (segs ++ [SAscii items])); [|exact I4|exact (TAIL e1 _ _ H eq_refl)].
-      split; [rewrite I2, GC, render_snoc; reflexivity|]. split; [rewrite meaning_snoc; cbn [segment_data]; rewrite <- app_assoc, <- I3; exact GM|].
+      split; [rewrite I2, GC, render_snoc, <- app_assoc; reflexivity|]. split; [rewrite meaning_snoc; cbn [segment_data]; rewrite <- app_assoc, <- I3; exact GM|].
       split; [apply Forall_app; split; [exact GS|constructor; [exact I1|constructor]]|]. split; [exact I5|].
       destruct I6 as [(A & B & C)|(A & B & C)]; [left; split; [exact A|rewrite C; exact NM]|right; repeat split; assumption].
     - (* a Base256 field *)
@@ -279,15 +279,15 @@ Proof.
       assert (e_cw ew = (e_cw e ++ [231]) ++ 0 :: run) as CW by (rewrite R2, <- !app_assoc; reflexivity).
       assert (length (e_cw el) = length (e_cw e ++ [231])) as LS by reflexivity. rewrite LS in R8.
       destruct (write_length_gen ew (e_cw e ++ [231]) run e2 CW RN R8) as (s & SF & E2 & CASES).
-      assert (N.of_nat (length (e_cw e ++ [231])) + 1 = N.of_nat (length (render 0 segs)) + 2) as POS
-        by (rewrite app_length, GC; cbn [length]; lia).
+      assert (N.of_nat (length (e_cw e ++ [231])) + 1 = N.of_nat (length pre) + N.of_nat (length (render (N.of_nat (length pre)) segs)) + 2) as POS
+        by (rewrite app_length, GC, app_length; cbn [length]; lia).
       assert (has_more e2 = has_more ew) as HM2 by (rewrite E2; reflexivity).
       assert (bytes_ok run = true) as OKR by (rewrite R1 in OKE; apply bytes_ok_app in OKE; apply OKE).
       destruct CASES as [(WHY & LE & C2)|(HM & FULL & C2)].
       + (* explicit length *)
-        assert (G data e1 (segs ++ [SB256 run])) as G1.
-        { assert (e_cw e2 = render 0 (segs ++ [SB256 run])) as CR.
-          { rewrite render_snoc, C2, POS, GC, <- app_assoc. reflexivity. }
+        assert (G pre data e1 (segs ++ [SB256 run])) as G1.
+        { assert (e_cw e2 = pre ++ render (N.of_nat (length pre)) (segs ++ [SB256 run])) as CR.
+          { rewrite render_snoc, C2, POS, GC, <- !app_assoc. reflexivity. }
           assert (meaning (segs ++ [SB256 run]) ++ e_data ew = data) as MR.
           { rewrite meaning_snoc. cbn [segment_data]. rewrite <- app_assoc, <- R1. exact GM. }
           assert (Forall seg_ab (segs ++ [SB256 run])) as FR.
@@ -307,7 +307,7 @@ Proof.
         destruct (TAIL _ _ _ H eq_refl) as (n1 & M1). destruct f as [|f']; cbn [main_loop] in M1; [discriminate|].
         rewrite (has_more_nil (set_ascii_until_end e2)) in M1 by (cbn [e_data set_ascii_until_end]; rewrite E2; exact DE).
         cbn [negb] in M1. inversion M1; subst e'. exists (segs ++ [SB256End run]). split.
-        * split; [cbn [e_cw set_ascii_until_end]; rewrite render_snoc, C2, POS, GC, <- app_assoc; reflexivity|].
+        * split; [cbn [e_cw set_ascii_until_end]; rewrite render_snoc, C2, POS, GC, <- !app_assoc; reflexivity|].
            split; [rewrite meaning_snoc; cbn [segment_data]; rewrite R1, DE, app_nil_r in GM; exact GM|].
            split; [cbn [e_data set_ascii_until_end]; rewrite E2; exact DE|]. split; [reflexivity|]. right.
            exists segs, run, s. split; [reflexivity|]. split; [exact GS|].
@@ -339,7 +339,40 @@ Proof. apply Forall_impl. intros s. destruct s; cbn; auto. Qed.
 
 Section ABPlans.
 Variable optimize_fn : list N -> N -> list SymbolSize -> N -> PR (option (list (N * EncodationType))).
-Variables (data : list N) (symbols : list SymbolSize) (modes : N).
+Variables (symbols : list SymbolSize) (modes : N).
+
+(* `codewords` on a context whose codewords so far are `pre` (nothing, or the Macro / FNC1 header codeword) *)
+Lemma codewords_ab (pre d inp : list N) cw s :
+  (forall p, optimize_fn d (N.of_nat (length pre)) symbols modes = Ok (Some p) -> ab_plan p) -> bytes_ok d = true ->
+  codewords optimize_fn (mkenc d inp Ascii [] None pre modes symbols) = Ok (cw, s) ->
+  exists script npad, script_ok script npad = true /\ cw = pre ++ tailS (N.of_nat (length pre)) script npad /\ meaning script = d /\ Forall ab_seg script.
+Proof.
+  intros plans_ab OK. unfold codewords.
+  cbn [e_symbols e_data e_modes e_input e_encodation e_new_mode e_cw].
+  destruct symbols as [|s0 sr] eqn:ES; [discriminate|]. rewrite <- ES in *.
+  destruct (_ <? _); [discriminate|]. destruct (upper_limit_for_number_of_codewords _ _); [|discriminate].
+  change (cw_len (mkenc d inp Ascii [] None pre modes symbols)) with (N.of_nat (length pre)).
+  destruct (optimize_fn d (N.of_nat (length pre)) symbols modes) as [p| |] eqn:EO; cbn [bind lift]; try discriminate.
+  destruct p as [p|]; [|discriminate]. pose proof (plans_ab p eq_refl) as PA.
+  destruct (main_loop _ _ 0) as [e3| |] eqn:ML; cbn [bind]; try discriminate.
+  destruct (symbol_for e3 0) as [s'|] eqn:FF; [|discriminate].
+  destruct (add_padding e3 s') as [e4| |] eqn:AP; cbn [bind]; try discriminate. intros [= <- <-].
+  apply add_padding_spec in AP. destruct AP as (L & C4 & _).
+  destruct (main_loop_ab pre d OK (6 * length d + 12)%nat (mkenc d inp Ascii p None pre modes symbols) 0 [] e3)
+    as (segs & (FC & FM & FD & FA & FE) & _); [|exact ML|].
+  { split; [cbn [e_cw render]; rewrite app_nil_r; reflexivity|]. split; [reflexivity|]. split; [constructor|]. split; [exact PA|]. left. split; reflexivity. }
+  rewrite FA in C4. rewrite (proj2 (N.eqb_eq _ _) eq_refl : et_eqb Ascii Ascii = true) in C4. rewrite padding_pad in C4.
+  exists segs, (N.to_nat (num_data_codewords s' - cw_len e3)). split; [|split; [|split; [exact FM|]]].
+  3:{ destruct FE as [AB|(init & run & sx & -> & AB & _)]; [apply seg_ab_ab_seg; exact AB|].
+      apply Forall_app. split; [apply seg_ab_ab_seg; exact AB|constructor; [exact I|constructor]]. }
+  - destruct FE as [AB|(init & run & sx & -> & AB & SF & FULL)]; [apply script_ok_ab; exact AB|].
+    rewrite SF in FF. inversion FF; subst sx. rewrite FULL, N.sub_diag. apply script_ok_ab_end; [exact AB|].
+    rewrite <- FM in OK. unfold meaning in OK. rewrite flat_map_app in OK. apply bytes_ok_app in OK. destruct OK as [_ OK].
+    cbn [flat_map segment_data] in OK. rewrite app_nil_r in OK. exact OK.
+  - rewrite C4, FC. unfold tailS, cw_len. cbv zeta. rewrite FC, <- app_assoc, app_length, Nat2N.inj_add. reflexivity.
+Qed.
+
+Variable data : list N.
 Hypothesis plans_ab : forall p, optimize_fn data 0 symbols modes = Ok (Some p) -> ab_plan p.
 
 Theorem ab_plan_roundtrip cw s : bytes_ok data = true ->
@@ -350,32 +383,20 @@ Proof.
   intros OK H.
   assert (exists script npad, script_ok script npad = true /\ cw = stream script npad /\ meaning script = data /\ Forall ab_seg script) as (script & npad & SO & CW & ME & SH).
   2:{ split; [exists script, npad; auto|]. rewrite CW, (decode_script _ _ SO), ME. reflexivity. }
-  revert H. unfold encode_data_internal. cbv zeta. cbn [bind]. unfold codewords.
-  cbn [with_size e_symbols e_data e_modes e_input e_encodation e_new_mode e_cw].
-  destruct symbols as [|s0 sr] eqn:ES; [discriminate|]. rewrite <- ES in *.
-  destruct (_ <? _); [discriminate|]. destruct (upper_limit_for_number_of_codewords _ _); [|discriminate].
-  change (cw_len (with_size data symbols modes false)) with 0.
-  destruct (optimize_fn data 0 symbols modes) as [p| |] eqn:EO; cbn [bind lift]; try discriminate.
-  destruct p as [p|]; [|discriminate]. pose proof (plans_ab p eq_refl) as PA.
-  destruct (main_loop _ _ 0) as [e3| |] eqn:ML; cbn [bind]; try discriminate.
-  destruct (symbol_for e3 0) as [s'|] eqn:FF; [|discriminate].
-  destruct (add_padding e3 s') as [e4| |] eqn:AP; cbn [bind]; try discriminate. intros [= <- <-].
-  apply add_padding_spec in AP. destruct AP as (L & C4 & _).
-  destruct (main_loop_ab data OK (6 * length data + 12)%nat (mkenc data data Ascii p None [] modes symbols) 0 [] e3)
-    as (segs & (FC & FM & FD & FA & FE) & _); [|exact ML|].
-  { split; [reflexivity|]. split; [reflexivity|]. split; [constructor|]. split; [exact PA|]. left. split; reflexivity. }
-  rewrite FA in C4. rewrite (proj2 (N.eqb_eq _ _) eq_refl : et_eqb Ascii Ascii = true) in C4. rewrite padding_pad in C4.
-  exists segs, (N.to_nat (num_data_codewords s' - cw_len e3)). split; [|split; [|split; [exact FM|]]].
-  3:{ destruct FE as [AB|(init & run & sx & -> & AB & _)]; [apply seg_ab_ab_seg; exact AB|].
-      apply Forall_app. split; [apply seg_ab_ab_seg; exact AB|constructor; [exact I|constructor]]. }
-  - destruct FE as [AB|(init & run & sx & -> & AB & SF & FULL)]; [apply script_ok_ab; exact AB|].
-    rewrite SF in FF. inversion FF; subst sx. rewrite FULL, N.sub_diag. apply script_ok_ab_end; [exact AB|].
-    rewrite <- FM in OK. unfold meaning in OK. rewrite flat_map_app in OK. apply bytes_ok_app in OK. destruct OK as [_ OK].
-    cbn [flat_map segment_data] in OK. rewrite app_nil_r in OK. exact OK.
-  - rewrite C4, FC. unfold stream, cw_len. rewrite FC. reflexivity.
+  revert H. unfold encode_data_internal. cbv zeta. cbn [bind]. intros H.
+  destruct (codewords_ab [] data data cw s plans_ab OK H) as (script & npad & SO & CW & ME & SH).
+  exists script, npad. split; [exact SO|split; [|split; [exact ME|exact SH]]]. rewrite CW. unfold stream, tailS. cbn [app length]. rewrite N.add_0_l. reflexivity.
 Qed.
 End ABPlans.
 
+Lemma ab_plans_of_modes sorter symbols modes d w :
+  (forall k l l', sorter symbols k l = Ok l' -> incl l' l) -> (forall m, enabled modes m = true -> ab_mode m) ->
+  forall p, optimize_fn sorter d w symbols modes = Ok (Some p) -> ab_plan p.
+Proof.
+  intros HS HM p. unfold optimize_fn. destruct (optimize symbols (sorter symbols) d w Ascii modes) as [[r st]| |] eqn:EO; cbn [bind]; try discriminate.
+  intros [= ->]. destruct (optimize_shape symbols (sorter symbols) HS d w Ascii modes p st EO) as (_ & M & _).
+  unfold ab_plan. apply Forall_forall. intros x Hx. unfold modes_ok in M. rewrite Forall_forall in M. apply HM. exact (M x Hx).
+Qed.
 
 (* with the crate's optimiser: any mode set within {ASCII, Base256} -- that is the sets {ASCII}, {Base256} and
    {ASCII, Base256} -- any admissible sort; the plan is not characterised at all, only its modes are (C13) *)
@@ -386,10 +407,8 @@ Theorem ab_modes_roundtrip sorter data symbols modes cw s :
   (exists script npad, script_ok script npad = true /\ cw = stream script npad /\ meaning script = data /\ Forall ab_seg script) /\
   decode_data cw = Ok data.
 Proof.
-  intros HS HM OK H. apply (ab_plan_roundtrip (optimize_fn sorter) data symbols modes) with (s := s); [|exact OK|exact H].
-  intros p. unfold optimize_fn. destruct (optimize symbols (sorter symbols) data 0 Ascii modes) as [[r st]| |] eqn:EO; cbn [bind]; try discriminate.
-  intros [= ->]. destruct (optimize_shape symbols (sorter symbols) HS data 0 Ascii modes p st EO) as (_ & M & _).
-  unfold ab_plan. apply Forall_forall. intros x Hx. unfold modes_ok in M. rewrite Forall_forall in M. apply HM. exact (M x Hx).
+  intros HS HM OK H. apply (ab_plan_roundtrip (optimize_fn sorter) symbols modes data) with (s := s); [|exact OK|exact H].
+  apply ab_plans_of_modes; assumption.
 Qed.
 
 Lemma ab_modes_33 m : enabled 33 m = true -> ab_mode m.
@@ -401,3 +420,44 @@ Theorem ascii_base256_roundtrip sorter data symbols cw s :
   (exists script npad, script_ok script npad = true /\ cw = stream script npad /\ meaning script = data /\ Forall ab_seg script) /\
   decode_data cw = Ok data.
 Proof. intros HS. apply ab_modes_roundtrip; [exact HS|exact ab_modes_33]. Qed.
+
+(* ---- the same with a Macro 05 / 06 envelope or an FNC1 start: one header codeword, then the body under any ASCII / Base256 plan ---- *)
+Theorem macro_ab_roundtrip sorter data symbols modes body m head cw s :
+  (forall k l l', sorter symbols k l = Ok l' -> incl l' l) ->
+  (forall m, enabled modes m = true -> ab_mode m) -> bytes_ok body = true ->
+  (m = MACRO05 /\ head = MACRO05_HEAD) \/ (m = MACRO06 /\ head = MACRO06_HEAD) ->
+  data = head ++ body ++ MACRO_TRAIL ->
+  encode_data_internal (optimize_fn sorter) data symbols None modes true false = Ok (cw, s) ->
+  (exists script npad, script_ok script npad = true /\ cw = stream_with m script npad /\ meaning script = body /\ Forall ab_seg script) /\
+  decode_data cw = Ok data.
+Proof.
+  intros HS HMo OK HM HD H.
+  assert (exists script npad, script_ok script npad = true /\ cw = stream_with m script npad /\ meaning script = body /\ Forall ab_seg script) as (script & npad & SO & CW & ME & SH).
+  2:{ split; [exists script, npad; auto|]. rewrite CW, (decode_script_macro _ _ m head HM SO), ME, HD. reflexivity. }
+  revert H. unfold encode_data_internal. cbv zeta.
+  set (e0 := with_size data symbols modes false).
+  destruct (use_macro_spec e0) as (e1 & UM & M5 & M6 & _). rewrite UM. cbn [bind].
+  assert (e1 = strip_to e0 body m) as ->.
+  { destruct HM as [[-> ->]|[-> ->]]; [apply M5|apply M6]; try reflexivity; unfold enveloped; exact HD. }
+  unfold strip_to, e0, with_size. cbn [e_encodation e_planned e_new_mode e_cw e_modes e_symbols app]. intros H.
+  destruct (codewords_ab (optimize_fn sorter) symbols modes [m] body body cw s (ab_plans_of_modes sorter symbols modes body _ HS HMo) OK H) as (script & npad & SO & CW & ME & SH).
+  exists script, npad. split; [exact SO|split; [exact CW|split; [exact ME|exact SH]]].
+Qed.
+
+Theorem fnc1_ab_roundtrip sorter data symbols modes use_macros cw s :
+  (forall k l l', sorter symbols k l = Ok l' -> incl l' l) ->
+  (forall m, enabled modes m = true -> ab_mode m) -> bytes_ok data = true ->
+  encode_data_internal (optimize_fn sorter) data symbols None modes use_macros true = Ok (cw, s) ->
+  (exists script npad, script_ok script npad = true /\ cw = stream_with ascii_FNC1 script npad /\ meaning script = data /\ Forall ab_seg script) /\
+  decode_data cw = Ok data.
+Proof.
+  intros HS HMo OK H.
+  assert (exists script npad, script_ok script npad = true /\ cw = stream_with ascii_FNC1 script npad /\ meaning script = data /\ Forall ab_seg script) as (script & npad & SO & CW & ME & SH).
+  2:{ split; [exists script, npad; auto|]. rewrite CW, (decode_script_fnc1 _ _ SO), ME. reflexivity. }
+  revert H. unfold encode_data_internal. cbv zeta.
+  set (um := if use_macros then _ else _).
+  assert (um = Ok (with_size data symbols modes true)) as -> by (unfold um; destruct use_macros; reflexivity).
+  cbn [bind]. unfold with_size. intros H.
+  destruct (codewords_ab (optimize_fn sorter) symbols modes [ascii_FNC1] data data cw s (ab_plans_of_modes sorter symbols modes data _ HS HMo) OK H) as (script & npad & SO & CW & ME & SH).
+  exists script, npad. split; [exact SO|split; [exact CW|split; [exact ME|exact SH]]].
+Qed.
